@@ -232,7 +232,10 @@ def run_case(ctx, case):
             h = sum(len(str(it)) for it in items)     # deterministic per case (replays rebuild the same way)
             build = ("whole", "append", "assign")[h % 3]
             ctx.count("ir_built_" + build)
-            sub = assemble_subroutine(gs.render_ir(items, kinds_of, build=build, split=(h // 3) % (len(items) + 1)))
+            share = (h // 7) % 3 == 0
+            if share:
+                ctx.count("ir_with_shared_operand_objects")
+            sub = assemble_subroutine(gs.render_ir(items, kinds_of, build=build, split=(h // 3) % (len(items) + 1), share=share))
     except RuntimeError as e:
         nR = len({r for r in named_registers(items) if r[0] == "R"})
         if "no registers left" in str(e) and nR + max_lits(items) > 16:
